@@ -722,6 +722,12 @@ pub fn validate(a: &[u128]) -> Vec<u128> {
             }
             4 => data.truncate(pos),
             5 => data.extend_from_slice(&vec![0x5Au8; pos]),
+            // the outboard store is shorter than the full outboard (a partially written file): io-backed kinds only
+            6 => {
+                if let Some(d) = ob.data_mut() {
+                    d.truncate(pos);
+                }
+            }
             _ => {
                 if let Some(d) = ob.data_mut() {
                     for x in d.iter_mut().skip(pos) {
@@ -779,10 +785,26 @@ pub fn agree_enc(a: &[u128]) -> Vec<u128> {
     o
 }
 
-/// agree_dec: args as `decode` (driver field ignored) -> per driver 0..3: [len, obs...]
+/// agree_val: args as `validate` (validator field ignored) -> per validator 0..3: [len, obs...]
+pub fn agree_val(a: &[u128]) -> Vec<u128> {
+    let mut o = Vec::new();
+    for v in 0..4u128 {
+        let mut b = a.to_vec();
+        b[4] = v;
+        let r = match std::panic::catch_unwind(std::panic::AssertUnwindSafe(|| validate(&b))) {
+            Ok(x) => x,
+            Err(_) => vec![crate::PANIC],
+        };
+        o.push(r.len() as u128);
+        o.extend(r);
+    }
+    o
+}
+
+/// agree_dec: args as `decode` (driver field ignored) -> per driver 0..4: [len, obs...]
 pub fn agree_dec(a: &[u128]) -> Vec<u128> {
     let mut o = Vec::new();
-    for d in 0..4u128 {
+    for d in 0..5u128 {
         let mut b = a.to_vec();
         b[5] = d;
         let r = match std::panic::catch_unwind(std::panic::AssertUnwindSafe(|| decode(&b))) {
